@@ -75,7 +75,7 @@ fn main() {
 		});
 		let ctx = mk_ctx(Tier::Quick, seed, threads, root.clone(), Duration::from_secs(600));
 		let check = v["check"].as_str().unwrap_or("").to_string();
-		let vs = (prop.replay)(&ctx, &check, &v["input"]);
+		let vs = replay_with_history(prop, &ctx, &check, &v["input"]);
 		println!("replay property={} check={} input={}", prop.id, check, v["input"]);
 		if vs.is_empty() {
 			println!("replay: no violation reproduced");
@@ -142,8 +142,75 @@ fn main() {
 		report.info.insert("wide_passes".into(), serde_json::json!(wide_done));
 		report.rule.push_str("; WIDE PASSES: the IRI half of the whole domain again with its non-ASCII representative (2-byte U+00E9) replaced by a 3-byte (U+D7FF) and/or 4-byte (U+10000) character, listed under wide_passes");
 	}
+	history_pass(&ctx, prop, &mut report);
 	let code = finish(&ctx, prop, report);
 	std::process::exit(code);
+}
+
+/// Replays a case; an input that carries `after` (a list of {check, input}) is replayed in a
+/// fresh thread after those cases, in that order (their own verdicts are discarded).
+fn replay_with_history(prop: &props::Prop, ctx: &Ctx, check: &str, input: &Value) -> Vec<Violation> {
+	// always in a fresh thread: nothing a previous replay left in thread-local state of the subject
+	// may decide this one
+	let after = input["after"].as_array().cloned().unwrap_or_default();
+	let mut plain = input.clone();
+	if let Some(o) = plain.as_object_mut() {
+		o.remove("after");
+	}
+	std::thread::scope(|s| {
+		s.spawn(|| {
+			for a in &after {
+				let _ = engine::guard(|| (prop.replay)(ctx, a["check"].as_str().unwrap_or(""), &a["input"]));
+			}
+			let mut vs = (prop.replay)(ctx, check, &plain);
+			if !after.is_empty() {
+				for v in &mut vs {
+					v.input["after"] = Value::Array(after.clone());
+				}
+			}
+			vs
+		})
+		.join()
+		.unwrap_or_default()
+	})
+}
+
+/// Call histories of depth 2 over a small domain of cases whose subject is a pure function of its
+/// input: for every ordered pair (x, y), in a fresh thread, the case of x runs first and then the
+/// case of y is judged exactly as in the sweep. A subject that keeps state between calls (a cache,
+/// a remembered offset) shows as a violation of y that names x as its history.
+fn history_pass(ctx: &Ctx, prop: &props::Prop, report: &mut Report) {
+	let dom = props::history_domain(prop.id, ctx);
+	if dom.is_empty() {
+		return;
+	}
+	let n = dom.len();
+	let r = engine::run_shards(ctx, n, |xi| {
+		let mut r = Report::new();
+		let (xc, x) = &dom[xi];
+		for (yc, y) in &dom {
+			let mut input = y.clone();
+			input["after"] = serde_json::json!([{"check": xc, "input": x}]);
+			for v in replay_with_history(prop, ctx, yc, &input) {
+				r.violate(v);
+			}
+			r.evaluations += 1;
+		}
+		r
+	});
+	report.count("history_pairs", (n * n) as u64);
+	report.evaluations += r.evaluations;
+	report.transitions += r.evaluations;
+	for (k, b) in r.buckets {
+		let e = report.buckets.entry(format!("{k}|after")).or_default();
+		e.count += b.count;
+		for x in b.examples {
+			if e.examples.len() < 3 {
+				e.examples.push(x);
+			}
+		}
+	}
+	report.rule.push_str("; CALL HISTORIES: all ordered pairs (x, y) of a sub-domain (counter history_pairs), y judged in a fresh thread right after x");
 }
 
 /// Which wide passes a property runs in which tier (0 = none). Properties whose subject is a
@@ -242,14 +309,21 @@ fn finish(ctx: &Ctx, prop: &props::Prop, mut report: Report) -> i32 {
 	}
 	// Determinism gate (O5): re-execute every new violation twice in isolation.
 	let mut machinery_error = false;
+	let mut not_replayable = 0u64;
 	let mut confirmed: Vec<(Violation, u64)> = Vec::new();
 	for (v, n) in new_violations {
-		let r1 = (prop.replay)(ctx, &v.check, &v.input);
-		let r2 = (prop.replay)(ctx, &v.check, &v.input);
+		let r1 = replay_with_history(prop, ctx, &v.check, &v.input);
+		let r2 = replay_with_history(prop, ctx, &v.check, &v.input);
 		let s1: Vec<String> = r1.iter().map(|x| format!("{}|{}", x.signature(), x.observed)).collect();
 		let s2: Vec<String> = r2.iter().map(|x| format!("{}|{}", x.signature(), x.observed)).collect();
 		let want = format!("{}|{}", v.signature(), v.observed);
-		if s1 != s2 || !s1.contains(&want) {
+		if s1 == s2 && !s1.contains(&want) {
+			// seen in the sweep, twice not seen alone: the verdict depends on what ran before it in
+			// the same thread (hidden state in the subject). It cannot be replayed from its input, so
+			// it is never a verdict by itself; it only matters when nothing replayable was found.
+			eprintln!("NOT-REPLAYABLE: {} input={} was seen in the sweep but not when replayed alone", v.signature(), v.input);
+			not_replayable += 1;
+		} else if s1 != s2 {
 			eprintln!(
 				"MACHINERY-ERROR: violation did not replay deterministically: {} input={} (first: {:?}, second: {:?})",
 				v.signature(),
@@ -261,6 +335,10 @@ fn finish(ctx: &Ctx, prop: &props::Prop, mut report: Report) -> i32 {
 		} else {
 			confirmed.push((v, n));
 		}
+	}
+	if not_replayable > 0 && confirmed.is_empty() {
+		eprintln!("MACHINERY-ERROR: {not_replayable} violation signature(s) of the sweep do not replay from their input and no replayable violation was found");
+		machinery_error = true;
 	}
 
 	// replay files
